@@ -96,9 +96,37 @@ def corridor_cases():
         yield dict(kind="solver", game=game, theta=1e-6, known=dict(pstar=vals, T=T))
 
 
+def coarse_threshold_rings():
+    """Planted: a ring of N mixed states numbered against the direction of travel, left towards the goal with
+    probability 3/4 per lap, solved with COARSE thresholds (0.01, 0.05, 0.002): the value moves one state per
+    sweep, so several laps - far more than 1/threshold sweeps - are needed although every value is 1."""
+    from fractions import Fraction as F
+    for N, theta in ((300, 0.01), (120, 0.05), (300, 0.002)):
+        goal, sink = N + 1, N + 2
+        players, tl = [P1], [[("enter", 1)]]
+        # ring states 1..N; travel goes 1 -> 2 -> ... -> N -> (exit or back to 1): a state's successor is swept
+        # AFTER it, so a sweep in ascending order moves the goal's information back by one state only
+        for k in range(1, N + 1):
+            if k == N:
+                players.append(PR)
+                tl.append([(0.75, goal), (0.25, 1)])
+            else:
+                players.append((PR, P1, P2)[k % 3])
+                tl.append([(1, k + 1)] if players[-1] == PR else [("go", k + 1)])
+        players += [PR, PR]
+        tl += [[(1, goal)], [(1, sink)]]
+        n = len(players)
+        game = dict(rewards=[0] * n, players=players, transition_list=tl, final_states=[goal])
+        vals = [F(1)] * n
+        vals[sink] = F(0)
+        for sprune in (False, True):
+            yield dict(kind="solver", game=game, theta=theta, sprune=sprune, known=dict(pstar=vals, T=F(4 * N, 3) + 2))
+
+
 def planted_cases():
     yield from very_slow_reach()
     yield from corridor_cases()
+    yield from coarse_threshold_rings()
     for k in (2, 4, 6, 8):
         for q_num in (2, 4, 6):
             for owner in (PR, P1, P2):
@@ -527,7 +555,12 @@ def check_board(case, v):
         v.fail("solver-raises", o.brief(), sig=f"{type(e).__name__}@{o.where}")
         return v
     if pstar is not None:
-        compare_exact(v, game, facts, phat, pstar, theta, sweeps, "board Solver")
+        try:
+            compare_exact(v, game, facts, phat, pstar, theta, sweeps, "board Solver")
+        except OracleError as e:
+            # e.g. a break probability of 5e-324: 1 - p is 1.0 in floating point, the rows of the written game sum
+            # to more than 1 as rationals and the exact solver's linear systems can be singular
+            v.inconclusive = f"oracle: {e}"
         return v
     finals = set(game["final_states"])
     back = exact.backward_reachable(game)
